@@ -2,13 +2,13 @@
 
 import random
 
-from harness import progs, progs_calls
+from harness import progs, progs_alias, progs_calls
 from harness.common import Check
 from harness.e1corpus import Item, describe, run_items
 
 BUDGET = {
-    "quick": {"arith": 8, "control": 20, "memory": 6, "state": 14, "calls": 14},
-    "thorough": {"arith": 150, "control": 500, "memory": 100, "state": 400, "calls": 400},
+    "quick": {"arith": 6, "control": 20, "memory": 6, "state": 12, "calls": 12, "alias": 12},
+    "thorough": {"arith": 150, "control": 500, "memory": 100, "state": 400, "calls": 400, "alias": 300},
 }
 TIMEOUTS = ["0", "1ms", "10s"]
 
@@ -17,6 +17,7 @@ def run(chk: Check, tier: str):
     rnd = random.Random(104729 * chk.seed + 5)
     fams = dict(progs.FAMILIES)
     fams["calls"] = progs_calls.fam_calls
+    fams["alias"] = progs_alias.fam_alias
     items = []
     for fam, n in BUDGET[tier].items():
         for i in range(n):
